@@ -41,7 +41,7 @@ impl Check for C02 {
     }
     fn cases(&self, tier: Tier) -> u64 {
         match tier {
-            Tier::Quick => 20_000,
+            Tier::Quick => 100_000,
             Tier::Thorough => 600_000,
         }
     }
